@@ -500,6 +500,10 @@ def slice_dim(f, slicedef, fuzzydim=True):
     outf = PseudoNetCDFFile()
     p2p.addDimensions(inf, outf)
     p2p.addGlobalProperties(inf, outf)
+    # the sliced dimension takes its new length even if no variable uses it
+    newlen = len(range(*slice(dmin, dmax, dstride).indices(
+        len(inf.dimensions[dimkey]))))
+    outf.createDimension(dimkey, newlen).setunlimited(unlimited)
 
     for varkey in inf.variables.keys():
         var = inf.variables[varkey]
